@@ -268,6 +268,38 @@ def _ast_seq_receiver(it, st, expr: ast.expr) -> Optional[str]:  # type: ignore[
     return None
 
 
+def _is_rule_or_objective(ck: Checker, func: Func, node: ast.AST, owner: str, depth: int) -> tuple[bool, str]:
+    """`owner.ast_type in (Rule, Minimize)` holds at node, or - owner being a parameter - at every call site"""
+    from .c03 import _bind, _call_sites
+
+    it = ck.interp(func)
+    cond = f"{owner}.ast_type in (ASTType.Rule, ASTType.Minimize)"
+    if it.holds(node, cond) and it.reachable(node):
+        return True, f"holds in {func.name}"
+    if depth >= 3 or owner not in func.params():
+        return False, ""
+    sites = _call_sites(ck, func)
+    if not sites:
+        return False, ""
+    for caller, call in sites:
+        mapping = _bind(func, call)
+        if mapping is None or owner not in mapping:
+            return False, ""
+        arg = mapping[owner]
+        itc = ck.interp(caller)
+        ok = False
+        for txt in itc.texts(call, arg) | {unparse(arg)}:
+            try:
+                ok = ok or (itc.holds(call, f"{txt}.ast_type in (ASTType.Rule, ASTType.Minimize)") and itc.reachable(call))
+            except SyntaxError:
+                pass
+        if not ok and isinstance(arg, ast.Name):
+            ok, _ = _is_rule_or_objective(ck, caller, call, arg.id, depth + 1)
+        if not ok:
+            return False, ""
+    return True, f"holds at all {len(sites)} call site(s) of {func.name}"
+
+
 def r_own(ck: Checker) -> None:
     """in-place edits of AST child vectors: only vectors that preprocess() has rebuilt (never the caller's)"""
     sites = 0
@@ -315,6 +347,56 @@ def r_own(ck: Checker) -> None:
                 ck.add(f"{how} on <node>.{role}", ok, func, node, f"`{fmt(node)}` edits the live child vector `{short(t, 70)}` in place",
                        "AST.update()/constructors share child nodes: an in-place edit of a vector that preprocess() did not rebuild writes into the statements the caller passed to optimize (or into statements shared between rounds)",
                        rule="C17.OWN.edit")
+                if role == "body" and ok:
+                    owner = t.rsplit(".", 1)[0]
+                    held, how_held = _is_rule_or_objective(ck, func, node, owner, 0)
+                    ck.add("the body edited in place belongs to a rule or an objective", held, func, node, f"`{owner}.ast_type in (Rule, Minimize)` " + (how_held if held else "is not established here nor at the call sites"),
+                           "preprocess() rebuilds the body vector of rules and objectives only: the body of an #external / #edge / #heuristic / #project statement is still the caller's (unpool() copies shallowly)", rule="C17.OWN.edit")
+    # a sequence that came in as a parameter and is edited in place: no call site may pass a child vector of an AST node
+    # that preprocess() did not rebuild (arguments, terms, guards, ...)
+    from .c03 import _bind, _call_sites
+
+    psites = 0
+    for func in ck.prg.funcs.values():
+        if isinstance(func.node, ast.Lambda):
+            continue
+        params = [x for x in func.params() if x not in ("self", "cls")]
+        if not params:
+            continue
+        rebound = {n.id for n in ast.walk(func.node) if isinstance(n, ast.Name) and isinstance(n.ctx, ast.Store)}
+        for node in find_nodes(func.node, lambda n: isinstance(n, (ast.Call, ast.Assign, ast.AugAssign, ast.Delete))):
+            recv = None
+            if isinstance(node, ast.Call) and isinstance(node.func, ast.Attribute) and node.func.attr in (MUTATORS - {"update", "add", "discard", "setdefault", "popitem", "intersection_update", "difference_update"}):
+                recv = node.func.value
+            elif isinstance(node, (ast.Assign, ast.AugAssign)):
+                tg = node.targets[0] if isinstance(node, ast.Assign) else node.target
+                recv = tg.value if isinstance(tg, ast.Subscript) else None
+            elif isinstance(node, ast.Delete) and isinstance(node.targets[0], ast.Subscript):
+                recv = node.targets[0].value
+            if not (isinstance(recv, ast.Name) and recv.id in params and recv.id not in rebound):
+                continue
+            callers = _call_sites(ck, func)
+            last = func.name.rsplit(".", 1)[-1]
+            if not callers and func.params()[:1] == ["self"] and sum(1 for f2 in ck.prg.funcs.values() if f2.name.rsplit(".", 1)[-1] == last and f2.params()[:1] == ["self"]) == 1:
+                # a method reached through a container (`mapping[p].convert(..)`): the name is unique in the package
+                callers = [(f2, c) for f2 in ck.prg.funcs.values() if not isinstance(f2.node, ast.Lambda)
+                           for c in find_nodes(f2.node, lambda n: isinstance(n, ast.Call) and isinstance(n.func, ast.Attribute) and n.func.attr == last and ck.prg.resolve_callee(f2, n.func) is None)]  # type: ignore[misc]
+            if not callers:
+                continue
+            psites += 1
+            bad = []
+            for caller, call in callers:
+                mapping = _bind(func, call)
+                if mapping is None or recv.id not in mapping:
+                    continue
+                itc = ck.interp(caller)
+                for txt in itc.texts(call, mapping[recv.id]) | {unparse(mapping[recv.id])}:
+                    m = re.fullmatch(r"(.+)\.(\w+)", txt)
+                    if m and m.group(2) in SEQ_FIELDS - REBUILT_ROLES and not m.group(1).startswith("self"):
+                        bad.append(f"{caller.name}: `{short(txt, 50)}`")
+            ck.add(f"parameter `{recv.id}` of {func.name} is edited in place: no caller passes a live AST child vector", not bad, func, node, f"`{fmt(node)}`; AST vectors passed: {sorted(set(bad))}",
+                   "writing into `atom.symbol.arguments` of a statement edits the statement the caller of optimize passed in (and statements shared between rounds)", rule="C17.OWN.edit")
+    ck.notes["C17.own.param-sites"] = psites
     ck.notes["C17.own.sites"] = sites
     ck.need(sites >= 5, f"in-place AST edit sites found ({sites}) - the matcher is expected to see at least the known ones")
     # preprocess rebuilds exactly those vectors, unconditionally
